@@ -230,7 +230,7 @@ def tpd_case(draw, tier="quick"):
     d = 2 if what in ("tangent_from_outside", "polar") else draw(st.sampled_from([2, 3]))
     return {"d": d, "what": what, "sig": draw(st.sampled_from(SIGS[d][:1] + SIGS[d][2:] if d == 2 else SIGS[d][:2])), "n": draw(Z.params(9)), "i": draw(st.integers(0, 5)),
             "p": draw(C.hpoint(d, 5)), "q": draw(C.hpoint(d, 5)), "cls": draw(st.sampled_from(["Circle", "Sphere2", "Sphere3"] if what in ("is_tangent_class", "tangency_after_move") else ["Quadric", "Conic", "Circle", "Ellipse", "Sphere2", "Sphere3", "QuadricCollection"])),
-            "c": [draw(C.ints(6)) for _ in range(3)], "r": draw(st.sampled_from([1, 2, 3, 5])), "u": draw(st.integers(0, len(UNIT) - 1)), "truth": draw(st.booleans()), "s": draw(C.scale()), "centre": draw(st.sampled_from([False, False, True]))}
+            "c": [draw(C.ints(6)) for _ in range(3)], "r": draw(st.sampled_from([1, 2, 3, 5, 0.5, 0.125, 0.1, 0.0625])), "u": draw(st.integers(0, len(UNIT) - 1)), "truth": draw(st.booleans()), "s": draw(C.scale()), "centre": draw(st.sampled_from([False, False, True]))}
 
 
 def run_tpd(c):
@@ -460,7 +460,7 @@ def run_tpd(c):
 @st.composite
 def deg_case(draw, tier="quick"):
     what = draw(st.sampled_from(["line_pair", "plane_pair", "cone", "cylinder", "circle", "sphere"]))
-    return {"what": what, "v": [draw(C.ints(5)) for _ in range(12)], "A": draw(C.hpoint(3, 5)), "B": draw(C.hpoint(3, 5)), "r": draw(st.sampled_from([1, 2, 3])),
+    return {"what": what, "v": [draw(C.ints(5)) for _ in range(12)], "A": draw(C.hpoint(3, 5)), "B": draw(C.hpoint(3, 5)), "r": draw(st.sampled_from([1, 2, 3, 0.5, 0.25, 0.1, 0.0625])),
             "k": draw(st.integers(0, len(UNIT) - 1)), "k2": draw(st.integers(0, len(UNIT) - 1)), "t": draw(st.sampled_from([1, 2, -1, 3])),
             "far": draw(st.sampled_from([1, 1, 4, 8]))}
 
